@@ -9,9 +9,10 @@ ALL = ["C%02d" % i for i in range(1, 21)]
 def main():
     props = {json.loads(l)["id"]: json.loads(l) for l in open(os.path.join(ROOT, "properties.jsonl"))}
     checks, na = [], []
+    ready = set(open(os.path.join(ROOT, "checks", "READY.txt")).read().split())
     for cid in ALL:
         try:
-            mod = engine.load_check(cid)
+            mod = engine.load_check(cid) if cid in ready else None
         except SystemExit:
             mod = None
         if mod is None or getattr(mod, "NOT_READY", False):
